@@ -975,6 +975,13 @@ func ParseCIDR(cidr string) ([]*net.IPNet, error) {
 		if err != nil {
 			return nil, fmt.Errorf("invalid CIDR %q", cidr)
 		}
+		// An IPv4 prefix written in IPv4-mapped IPv6 notation (::ffff:a.b.c.d/N)
+		// comes back with a 16 byte mask. Normalize it to the plain IPv4
+		// form, so that prefix lengths of different pools are comparable.
+		if ip4 := n.IP.To4(); ip4 != nil && len(n.Mask) == net.IPv6len {
+			ones, _ := n.Mask.Size()
+			n = &net.IPNet{IP: ip4, Mask: net.CIDRMask(ones-8*(net.IPv6len-net.IPv4len), 8*net.IPv4len)}
+		}
 		return []*net.IPNet{n}, nil
 	}
 
